@@ -5,7 +5,7 @@ def run(tier):
     u, ureal = U_kern_gate(), U_kern('kern')
     T = 300 if tier == 'quick' else 1800
     # L1/L2/L4: the gate (tag over exactly [48,EOF), full-length compare, reject => no output)
-    gate_obligations(r, tier, [74, 100, 138] if tier == 'quick' else list(range(74, 161, 4)), prefix='L124-', ops=('decrypt',))
+    gate_obligations(r, tier, [74, 100, 138, 177, 178, 239] if tier == 'quick' else list(range(74, 161, 4)) + list(range(174, 246, 3)), prefix='L124-', ops=('decrypt',))
     # L3: non-interference of every header byte
     flen = 48 + 20 + 32
     offs = list(range(0, 48))
